@@ -19,6 +19,7 @@ EXPLANATION = (
     "the loop; (R16.4) the field rewriter derives the projected descriptor from the record's OWN descriptor on every call (no "
     "cache keyed more coarsely), changes only the named fields, and metadata overrides are applied only when given. This check "
     "gives the weakest assurance of the set."
+    " Also decided (rules added after the fifth blind round): (R16.6) the --split part suffix never truncates the part number; (R16.7) with -n the interpreted engine's namespace is rebuilt for every record."
 )
 RULE_SUMMARY = "instances: source-handling call sites with their handlers, loop paths to the writer, slice arguments, rewriter definitions"
 
